@@ -285,8 +285,83 @@ def check_custom(case, rec):
     rec.label('custom:' + kind, *(['custom:repeated-slot'] if len(set(case['slots'])) < len(case['slots']) else []), 'custom:outer=' + case['outer'], 'custom:points=%s' % case['points'])
 
 
+# ---- virtual derivative targets: WithDerivative / IdentifierDerivativeTarget ----------------------------------------------------------------
+
+@st.composite
+def virtual_cases(draw, tier):
+    return dict(G=draw(st.sampled_from(['sum(X*y*y)', 'sum(sin(X)*y)', 'sum(X*X*y)', 'X*y', 'sum(exp(X))*sum(y)', 'sum(X)'])), f0=draw(st.sampled_from(['zeros', 'zeros', 'half-y', 'const'])),
+                D=draw(st.sampled_from(['const'])), own=draw(st.sampled_from([False, False, True])), nested=draw(st.booleans()),
+                y=[draw(st.sampled_from([-1.25, -.5, .5, .75, 1.5])) for _ in range(3)], d=[draw(st.sampled_from([-1., -.5, .5, 1., 2.])) for _ in range(6)], c=[draw(st.sampled_from([-.5, .25, 1.])) for _ in range(3)])
+
+
+def check_virtual(case, rec):
+    """X = WithDerivative(f0(y), t, D) with a declared derivative D that does not depend on real arguments (as in the library's own use: the linear
+    part of a coordinate transformation; the wrapper of an argument-dependent D is dropped when differentiating to that argument, so mixed partials would not
+    commute there - outside what the wrapper is made for) behaves under differentiation like X(t, y) = f0(y) + D t at t = 0: first and mixed second derivatives of
+    G(X, y) with respect to the virtual target t and the real argument y, in both orders, equal finite differences of that model"""
+    from nutils import evaluable as ev
+    c = ev.constant
+    yv = numpy.array(case['y']); Dc = numpy.array(case['d']).reshape(3, 2); cv = numpy.array(case['c'])
+    y = ev.Argument('y', (c(3),), float)
+    t = ev.IdentifierDerivativeTarget('t', (c(2),))
+    f0 = {'zeros': lambda: ev.zeros((c(3),)), 'half-y': lambda: y * c(.5), 'const': lambda: ev.asarray(cv)}[case['f0']]()
+    f0n = {'zeros': lambda Y: numpy.zeros(3), 'half-y': lambda Y: .5 * Y, 'const': lambda Y: cv}[case['f0']]
+    if case['D'] == 'const':
+        D = ev.asarray(Dc); Dn = lambda Y: Dc
+    else:
+        D = ev.insertaxis(y, 1, c(2)) * ev.prependaxes(ev.asarray(Dc[0]), (c(3),)); Dn = lambda Y: Y[:, None] * Dc[0][None, :]
+    X = ev.WithDerivative(f0, t, D)
+    if case['nested']:      # an outer wrapper for another target must not disturb the inner one
+        s = ev.IdentifierDerivativeTarget('s', (c(1),))
+        X = ev.WithDerivative(X, s, ev.zeros((c(3), c(1))))
+    G = case['G']
+    def Gn(Xv, Y):
+        return {'sum(X*y*y)': lambda: (Xv * Y * Y).sum(), 'sum(sin(X)*y)': lambda: (numpy.sin(Xv) * Y).sum(), 'sum(X*X*y)': lambda: (Xv * Xv * Y).sum(), 'X*y': lambda: Xv * Y,
+                'sum(exp(X))*sum(y)': lambda: numpy.exp(Xv).sum() * Y.sum(), 'sum(X)': lambda: Xv.sum()}[G]()
+    g = {'sum(X*y*y)': lambda: ev.Sum(X * y * y), 'sum(sin(X)*y)': lambda: ev.Sum(ev.sin(X) * y), 'sum(X*X*y)': lambda: ev.Sum(X * X * y), 'X*y': lambda: X * y,
+         'sum(exp(X))*sum(y)': lambda: ev.Sum(ev.exp(X)) * ev.Sum(y), 'sum(X)': lambda: ev.Sum(X)}[G]()
+    model = lambda T, Y: numpy.asarray(Gn(f0n(Y) + Dn(Y) @ T, Y))
+    def fd(f, x0, h=1e-3):
+        cols = []
+        for k in range(len(x0)):
+            acc = 0
+            for cf, mm in zip(numpy.array([-1, 9, -45, 45, -9, 1]) / 60., [-3, -2, -1, 1, 2, 3]):
+                dx = numpy.zeros(len(x0)); dx[k] = mm * h
+                acc = acc + cf * f(x0 + dx)
+            cols.append(acc / h)
+        return numpy.stack(cols, axis=-1)
+    T0 = numpy.zeros(2)
+    want = dict(t=fd(lambda T: model(T, yv), T0), y=fd(lambda Y: model(T0, Y), yv),
+                ty=fd(lambda Y: fd(lambda T: model(T, Y), T0), yv), yt=fd(lambda T: fd(lambda Y: model(T, Y), yv), T0), tt=fd(lambda T2: fd(lambda T: model(T, yv), T2), T0))
+    targets = dict(t=t, y=y)
+    args = dict(y=yv)
+    for order in ('t', 'y', 'ty', 'yt', 'tt'):
+        f = g
+        try:
+            for v in order: f = ev.derivative(f, targets[v])
+            got = numpy.asarray(ev.eval_once(f, arguments=args))
+        except Exception as e:
+            raise Violation('derivative-raised', f'd/d{"d/d".join(order)} of {G} with X = WithDerivative({case["f0"]}, t, {case["D"]}): {type(e).__name__}: {str(e)[:200]}', where='virtual:raised:' + type(e).__name__)
+        w = want[order]
+        if got.shape != w.shape or abs(got - w).max() > 1e-6 * (1 + abs(w).max()):
+            raise Violation('derivative-mismatch', f'd/d{" d/d".join(order)} of {G} with X = WithDerivative({case["f0"]}, t, {case["D"]}), nested={case["nested"]}: nutils {got.tolist()} vs the model X(t,y)=f0(y)+D(y)t {w.tolist()}', where='virtual:' + order)
+    if case['own']:
+        # the declared derivative wins over the derivative of the wrapped function, also when that function depends on the target itself
+        W = ev.WithDerivative(ev.sin(y), y, ev.asarray(numpy.diag(cv)))
+        got = numpy.asarray(ev.eval_once(ev.derivative(W, y), arguments=args))
+        if not numpy.allclose(got, numpy.diag(cv)):
+            raise Violation('derivative-mismatch', f'derivative(WithDerivative(sin(y), y, D), y) = {got.tolist()}, declared D = {numpy.diag(cv).tolist()}', where='virtual:own-target')
+        got = numpy.asarray(ev.eval_once(ev.derivative(ev.Sum(W * W), y), arguments=args))
+        if not numpy.allclose(got, 2 * numpy.sin(yv) @ numpy.diag(cv)):
+            raise Violation('derivative-mismatch', f'derivative(sum(W*W), y) with W = WithDerivative(sin(y), y, D): {got.tolist()} != 2 sin(y) D', where='virtual:own-target-product')
+        rec.label('virtual:own-target')
+    rec.nontrivial = True
+    rec.label('virtual:' + G, 'virtual:f0=' + case['f0'], 'virtual:D=' + case['D'])
+
+
 SUBS = [Sub('jacobian', cases, check, {'quick': 2500, 'thorough': 25000}, weight=5, timeout=20),
-        Sub('custom', custom_cases, check_custom, {'quick': 200, 'thorough': 3000}, weight=1, timeout=60)]
+        Sub('custom', custom_cases, check_custom, {'quick': 200, 'thorough': 3000}, weight=1, timeout=60),
+        Sub('virtual', virtual_cases, check_virtual, {'quick': 200, 'thorough': 3000}, weight=1, timeout=60)]
 
 def _singular_det(case, v):
     """the program takes the determinant (or inverse) of a matrix that is singular at the evaluation point"""
